@@ -589,7 +589,7 @@ pub fn c06(ctx: &mut Ctx) {
         let other_pub = own_ref(scheme, OTHER).pub_bytes();
         for (name, seq, init) in inits(scheme, OWN) {
             let deep = name == "built-typical" || name.starts_with("decoded-size-299") || name.starts_with("decoded-size-300-seq-5");
-            if q && !(deep || name == "built-minimal" || name.starts_with("built-seq-255")) {
+            if q && !(deep || name == "built-minimal" || name.starts_with("built-seq-255") || name == "decoded-uncompressed-key-0") {
                 continue;
             }
             let alpha = if deep { alphabet(scheme, seq, &own_pub, &other_pub) } else { sub_alphabet(scheme, seq, &own_pub, &other_pub) };
